@@ -341,11 +341,10 @@ def judge(plan: dict[str, Any], events: list[list[Any]], outcome: tuple[str, Any
                         done(MISSING)
                 continue
             if c in ("pos_final", "neg_final"):
+                # "a reply received in time is never dropped": also when it is the reply that reaches the pending limit
                 if phase == "pending" and n_pending + 1 >= PENDING_LIMIT:
                     bump(res["probes"], "final_at_pending_limit")
-                    done(("return", data), ("raise_any", None))
-                else:
-                    done(("return", data))
+                done(("return", data))
                 continue
             if c == "mismatch":
                 done(("raise", "RequestResponseMismatch"))
